@@ -72,11 +72,24 @@ pub fn run(lts: Arc<Lts>, o: &WalkOpts, pairs: usize) -> Value {
     let mut probes = 0u64;
     let mut maxn = 0u64;
     let obs_ops = ["exists", "is_dir", "is_file", "metadata", "read_dir", "walk_dir", "read_to_string"];
+    let mut rec_edges: Vec<(usize, usize)> = vec![];
+    for (si, es) in lts.edges.iter().enumerate() {
+        for (ei, e) in es.iter().enumerate() {
+            if matches!(e.op.op.as_str(), "copy_dir" | "move_dir") && e.allowed.len() == 1 && e.allowed[0] == "ok"
+                && lts.universe.iter().enumerate().any(|(j, q)| q.len() > e.op.p.len() && q[..e.op.p.len()] == e.op.p[..] && lts.states[si][j][0] != 0)
+            {
+                rec_edges.push((si, ei));
+            }
+        }
+    }
     for _ in 0..pairs {
-        let si = rng.gen_range(0..lts.states.len());
+        // copies / moves of a NON-EMPTY directory that succeed are rare among the edges (the destination must be
+        // free): every seventh pair is drawn from them directly
+        let forced: Option<(usize, usize)> = if !rec_edges.is_empty() && rng.gen_bool(0.15) { Some(rec_edges[rng.gen_range(0..rec_edges.len())]) } else { None };
+        let si = forced.map(|x| x.0).unwrap_or_else(|| rng.gen_range(0..lts.states.len()));
         let s = lts.states[si].clone();
         // an LTS edge (bias towards composites and state-changing edges) or an observer operation
-        let use_obs = rng.gen_bool(0.3);
+        let use_obs = forced.is_none() && rng.gen_bool(0.3);
         let (opj, is_obs): (Value, bool) = if use_obs {
             let op = obs_ops.choose(&mut rng).unwrap();
             let p = if rng.gen_bool(0.2) { vec![] } else { lts.universe.choose(&mut rng).unwrap().clone() };
@@ -87,8 +100,10 @@ pub fn run(lts: Arc<Lts>, o: &WalkOpts, pairs: usize) -> Value {
             // recursive operations on a NON-EMPTY directory make the longest call sequences (and are a tiny share of the
             // edges): a third of the picks goes to them when the state has one
             let has_kids = |p: &Vec<String>| lts.universe.iter().enumerate().any(|(j, q)| q.len() > p.len() && q[..p.len()] == p[..] && s[j][0] != 0);
-            let heavy: Vec<&Edge> = es.iter().filter(|e| matches!(e.op.op.as_str(), "copy_dir" | "move_dir" | "remove_dir_all") && has_kids(&e.op.p)).collect();
-            let e: &Edge = if !heavy.is_empty() && rng.gen_bool(0.35) {
+            let heavy: Vec<&Edge> = es.iter().filter(|e| matches!(e.op.op.as_str(), "copy_dir" | "move_dir" | "remove_dir_all") && has_kids(&e.op.p) && e.allowed.len() == 1 && e.allowed[0] == "ok").collect();
+            let e: &Edge = if let Some((_, ei)) = forced {
+                &es[ei]
+            } else if !heavy.is_empty() && rng.gen_bool(0.35) {
                 heavy.choose(&mut rng).unwrap()
             } else if !comp.is_empty() && rng.gen_bool(0.8) {
                 comp.choose(&mut rng).unwrap()
